@@ -260,6 +260,26 @@ func c12Gen(r *vu.RNG, n int, emit func(string)) {
 	c12Emit(emit, "noncanon", "uint", []byte{0x03, 0x01, 0x00, 0x00, 0x00})
 	c12Emit(emit, "noncanon", "uint", []byte{0x13, 1, 0, 0, 0, 0, 0, 0, 0})
 	c12Emit(emit, "valid", "uint", []byte{0x07, 0, 0, 0, 0, 1})
+	// every compact boundary, in the mode just above (non-canonical) and just at (canonical)
+	for _, d := range []string{"uint", "int", "big", "bytes", "sl(u16)", "map(u8,u8)", "opt(uint)"} {
+		pre := []byte{}
+		if d == "opt(uint)" {
+			pre = []byte{1}
+		}
+		for _, b := range [][]byte{
+			{0xfd, 0x00}, {0x01, 0x01}, // 63 / 64 in two-byte mode
+			{0xfe, 0xff, 0x00, 0x00}, {0x02, 0x00, 0x01, 0x00}, // 16383 / 16384 in four-byte mode
+			{0x03, 0xff, 0xff, 0xff, 0x3f}, {0x03, 0x00, 0x00, 0x00, 0x40}, // 2^30-1 / 2^30 in big mode, 4 bytes
+			{0x07, 0xff, 0xff, 0xff, 0xff, 0x00}, {0x07, 0x00, 0x00, 0x00, 0x00, 0x01}, // 5 bytes: zero top byte / 2^32
+			{0x13, 0xff, 0xff, 0xff, 0xff, 0xff, 0xff, 0xff, 0x00}, {0x13, 0, 0, 0, 0, 0, 0, 0, 0x01}, // 2^56-1 / 2^56 in 8 bytes
+			{0x17, 0xff, 0xff, 0xff, 0xff, 0xff, 0xff, 0xff, 0xff, 0x00}, {0x17, 0, 0, 0, 0, 0, 0, 0, 0, 0x01}, // 9 bytes
+		} {
+			if d != "uint" && d != "int" && d != "big" && d != "opt(uint)" && len(b) > 2 {
+				continue // length prefixes: only the small ones (no huge declared lengths)
+			}
+			c12Emit(emit, "noncanon", d, append(append([]byte{}, pre...), b...))
+		}
+	}
 	c12Emit(emit, "hostile", "bytes", []byte{0x02, 0x00, 0x20, 0x00, 0x41})             // 512 KiB declared
 	c12Emit(emit, "hostile", "str", []byte{0x02, 0x00, 0x40, 0x00, 0x41})               // 1 MiB declared
 	c12Emit(emit, "hostile", "sl(bytes)", []byte{0x04, 0x02, 0x00, 0x30, 0x00, 0x41})   // 768 KiB declared
@@ -352,6 +372,9 @@ func c12Gen(r *vu.RNG, n int, emit func(string)) {
 			case svuPrim:
 				if t.prim == "uint" || t.prim == "big" || t.prim == "int" || t.prim == "bytes" || t.prim == "str" {
 					x := svuGenU(r, 64)
+					if r.Chance(1, 2) { // just below a mode boundary: the longer mode is non-canonical
+						x = []uint64{63, 16383, 1<<30 - 1, 1<<32 - 1, 1<<56 - 1}[r.Intn(5)] - uint64(r.Intn(2))
+					}
 					if t.prim == "bytes" || t.prim == "str" {
 						x = uint64(r.Intn(5))
 					}
